@@ -8,7 +8,7 @@ use std::time::Duration;
 use vl_model::ctx::{hash64, load_replay, ncpu, parallel, Acc, Args, Ctx};
 use vl_model::pt::{self, Fail};
 use vl_model::sock::{Peer, Scratch, Server};
-use vl_model::svc::{t_service, Probe};
+use vl_tsvc::{t_service, Probe};
 use vl_model::wire::*;
 
 use crate::c01::style_of;
